@@ -359,11 +359,20 @@ class SimPool:
             job, i, blob = self.inq.popleft()
             self.busy += 1
             CTX.rec.on_task_start(self.busy)
+            me = S.me()
             try:
                 func, arg = pickle.loads(blob)
+                # which task this process works on (attribution of the
+                # candidates it builds; independent of the worker function's
+                # name)
+                if me is not None:
+                    CTX.rec.cur_task[me.name] = getattr(arg, 'id', None)
                 res = (True, func(arg))
             except Exception as e:
                 res = (False, e)
+            finally:
+                if me is not None:
+                    CTX.rec.cur_task.pop(me.name, None)
             try:
                 rb = pickle.dumps(res)
             except Exception as e:
